@@ -2,7 +2,7 @@
    ONLY statements: each theorem is closed by `exact` of a lemma proved elsewhere and followed by Print Assumptions. *)
 From Coq Require Import ZArith NArith List Bool Lia Permutation FMapPositive.
 Import ListNotations.
-Require Import Base Strings Builtins Interp Machine Spec HeapFacts Refine1 Refine2 Refine3 Refine4 Num FuelMono LinkStack.
+Require Import Base Strings Builtins Interp Machine Spec HeapFacts Refine1 Refine2 Refine3 Refine4 Num FuelMono LinkStack Float Scope.
 
 (* the trampolined machine of interpret.evaluate (frames, cache boxes, requestor chains, tail replacement) computes the big-step call-by-need semantics Spec.bs: same answer, same heap, same world, through states of at most 1 + demand-depth frames *)
 Theorem machine_implements_spec fuel prog stdin h' w' r d :
@@ -35,4 +35,59 @@ Theorem model_max_stack  :
   MAX_STACK_SIZE = GenStack.gen_max_stack_size.
 Proof. exact (LinkStack.model_max_stack ). Qed.
 Print Assumptions model_max_stack.
+
+(* LEXICAL SCOPE, for an arbitrary evaluation oracle (hence in every context): a definition captures the environment of its site plus itself *)
+Theorem definition_captures_its_environment (rec : list positive -> heap -> world -> task -> out) b sp e ip h w :
+  run rec ip h w (interpret (FunDef b sp) e) = Done (fst (newclo h b e)) w (inl (VFun (FClo (next_f h)))) 0
+  /\ PositiveMap.find (next_f h) (clos (fst (newclo h b e))) = Some {| f_body := b; f_env := {| funs := funs e ++ [next_f h]; args := args e |} |}.
+Proof. exact (Scope.definition_captures_its_environment rec b sp e ip h w). Qed.
+Print Assumptions definition_captures_its_environment.
+
+(* a self reference denotes that very function *)
+Theorem self_reference (rec : list positive -> heap -> world -> task -> out) outer self argsv sp ip h w :
+  run rec ip h w (interpret (FunRef 0 sp) {| funs := outer ++ [self]; args := argsv |}) = Done h w (inl (VFun (FClo self))) 0.
+Proof. exact (Scope.self_reference rec outer self argsv sp ip h w). Qed.
+Print Assumptions self_reference.
+
+(* index k denotes the k-th enclosing function *)
+Theorem outer_reference (rec : list positive -> heap -> world -> task -> out) outer f inner argsv sp ip h w :
+  run rec ip h w (interpret (FunRef (Z.of_nat (length inner)) sp) {| funs := outer ++ f :: inner; args := argsv |}) = Done h w (inl (VFun (FClo f))) 0.
+Proof. exact (Scope.outer_reference rec outer f inner argsv sp ip h w). Qed.
+Print Assumptions outer_reference.
+
+(* negative indices count from the outermost function *)
+Theorem outermost_reference (rec : list positive -> heap -> world -> task -> out) outer f inner argsv sp ip h w :
+  run rec ip h w (interpret (FunRef (- Z.of_nat (length outer) - 1) sp) {| funs := outer ++ f :: inner; args := argsv |}) = Done h w (inl (VFun (FClo f))) 0.
+Proof. exact (Scope.outermost_reference rec outer f inner argsv sp ip h w). Qed.
+Print Assumptions outermost_reference.
+
+Theorem reference_out_of_range (rec : list positive -> heap -> world -> task -> out) r sp e ip h w :
+  (Z.of_nat (length (funs e)) <= r \/ r < - Z.of_nat (length (funs e))) ->
+  run rec ip h w (interpret (FunRef r sp) e) = Done h w (inr (mkerr c_range sp)) 0.
+Proof. exact (Scope.reference_out_of_range rec r sp e ip h w). Qed.
+Print Assumptions reference_out_of_range.
+
+(* a call evaluates the body in the environment captured at the DEFINITION plus this call's arguments: the caller's environment does not occur *)
+Theorem call_uses_definition_environment (rec : list positive -> heap -> world -> task -> out) g cl argv sp ip h w :
+  PositiveMap.find g (clos h) = Some cl ->
+  run rec ip h w (apply_body (EFun (FClo g)) sp argv)
+  = let (h', t) := alloc h (f_body cl) {| funs := funs (f_env cl); args := args (f_env cl) ++ [argv] |} in Done h' w (inl (VThunk t)) 0.
+Proof. exact (Scope.call_uses_definition_environment rec g cl argv sp ip h w). Qed.
+Print Assumptions call_uses_definition_environment.
+
+Theorem call_binds_arguments g cl argv h t h' :
+  PositiveMap.find g (clos h) = Some cl -> alloc h (f_body cl) {| funs := funs (f_env cl); args := args (f_env cl) ++ [argv] |} = (h', t) ->
+  exists c, get h' t = Some c /\ c_ast c = f_body cl /\ funs (c_env c) = funs (f_env cl) /\ rnth (args (c_env c)) 0 = Some argv /\ c_cache c = None.
+Proof. exact (Scope.call_binds_arguments g cl argv h t h'). Qed.
+Print Assumptions call_binds_arguments.
+
+(* the position of an argument reference is whatever integer its position expression evaluates to (literal or computed); the argument is returned unevaluated *)
+Theorem argument_reference_by_value (rec : list positive -> heap -> world -> task -> out) ia r sp e argv ip h w (i:Z) h1 w1 d :
+  rnth (args e) r = Some argv -> existsb (Pos.eqb (next_t h)) ip = false ->
+  rec ip (fst (alloc h ia e)) w (TThunk (next_t h)) = Done h1 w1 (inl (VInt i)) d ->
+  run rec ip h w (interpret (ArgRef ia r sp) e)
+  = Done h1 w1 (if (0 <=? i) && (i <? Z.of_nat (length argv)) then match nth_error argv (Z.to_nat i) with Some v => inl v | None => inr (mkerr c_range sp) end
+               else inr (mkerr c_range sp)) (1 + d).
+Proof. exact (Scope.argument_reference_by_value rec ia r sp e argv ip h w i h1 w1 d). Qed.
+Print Assumptions argument_reference_by_value.
 
